@@ -104,7 +104,7 @@ def handle (line : String) : String :=
         | none => "na"
         | some q => if roundTrips q bs then "1" else "0"
       let fx := if fixed then (if bs.length ≤ capN then "1" else "0") else "na"
-      s!"ok {showOut bs} rt={rt} fx={fx}"
+      s!"ok {showOut bs} rt={rt} fx={fx} mut=0"
   | _, _, _, _ => "bad-op"
 
 end XC.C22
